@@ -60,7 +60,7 @@ class C11(XsProp):
             e = rng.choice(list(lits))
             lit = lits[e]
             pre, post = rng.choice(PRE), rng.choice(POST)
-            form = rng.choice(['top', 'top', 'vec', 'map', 'def', 'meta', 'defmeta', 'defnest', 'defnest2', 'vecnest'])
+            form = rng.choice(['top', 'top', 'vec', 'map', 'def', 'meta', 'defmeta', 'defnest', 'defnest2', 'vecnest', 'deflocal', 'deflocal2'])
             consts = ' '.join(w for w in ('SIX', 'TWO') if w in e)
 
             def wrap(x):
@@ -74,6 +74,11 @@ class C11(XsProp):
                     return '%s : ff %s ; ff ff %s' % (pre, x, post)
                 if form == 'meta':
                     return '%s #( 1 drop %s #) %s' % (pre, x, post)
+                # the block stands in a definition that has locals, one of them named like a constant the block uses
+                if form == 'deflocal':
+                    return '%s : ff local zz %s zz drop ; 5 ff %s' % (pre, x, post)
+                if form == 'deflocal2':
+                    return '%s #( 6 const SIX 2 const TWO #) : ff local SIX local TWO %s ; 8 9 ff %s' % (pre, x, post)
                 # a block nested in a block that stands in a word body / a builder, with values pending on the meta stack
                 if form == 'defnest':
                     return '%s : ff #( 10 %s swap drop #) ; ff %s' % (pre, x, post)
